@@ -161,7 +161,83 @@ def r5_forwarders(ctx):
             ctx.ob(f"{ic.key}:class-level-test-on-type", ic.loc(), f"isinstance(obj, {c.name}-type) applies the class-level test to type(obj)", ok, "the instance check no longer applies the class-level test to type(obj): a method on such a type is applicable to values whose class does not satisfy it")
 
 
+def documented_predicates(ctx):
+    """Interpret Exactly / StrictSubclass / HasMethod (the parametrised class checks) on real stand-in classes.
+    -> {name: (function, ok, detail)}; raises AnalysisError if not interpretable."""
+    from ..metainterp import HostInterp, Raised, Record
+    from ..model import AnalysisError
+
+    repo = ctx.repo
+    mod = repo.mod("types")
+    out = {}
+    Base = type("Base", (), {"method": lambda self: None})
+    Sub = type("Sub", (Base,), {})
+    Other = type("Other", (), {})
+    ORDER = Record(LESS="LESS", MORE="MORE", SAME="SAME", NONE="NONE")
+    en = A.order_enum(repo)
+    to = A.typeorder_fn(repo)
+    for f in mod.funcs.values():
+        if f.parent is not None or f.cls is not None or len(f.params) != 2 or f.name not in ("Exactly", "StrictSubclass", "HasMethod"):
+            continue
+        genv = {en.name: ORDER, to.name: lambda a, b: ("ordered-like", a, b), "TypeRelationship": lambda order=None, supertype=None, subtype=None, **k: Record(order=order, supertype=supertype, subtype=subtype)}
+        funcs = {n: g.node for n, g in mod.funcs.items() if g.parent is None and g.cls is None and g is not f and not g.node.decorator_list}
+        hi = HostInterp({}, Record(), {}, globals_env=genv, classes={}, functions=funcs)
+
+        def run(*a, hi=hi, f=f):
+            try:
+                return hi.call_function(f.node, list(a), {}, {})
+            except Raised as r:
+                raise AnalysisError(f"{f.key}: raises {r.what}")
+
+        bad = None
+        if f.name == "Exactly":
+            r_same, r_sub, r_other = run(Base, Base), run(Sub, Base), run(Other, Base)
+            for what, r, want_order, want_super in (("the class itself", r_same, "LESS", True), ("a subclass", r_sub, ("ordered-like", Base, Sub), False), ("an unrelated class", r_other, ("ordered-like", Base, Other), False)):
+                if not isinstance(r, Record) or r.order != want_order or bool(r.supertype) != want_super:
+                    bad = bad or f"for {what} Exactly[Base] answers order={getattr(r, 'order', r)!r}, supertype={getattr(r, 'supertype', None)!r} (expected {want_order!r}, {want_super})"
+        elif f.name == "StrictSubclass":
+            for what, arg, want in (("a subclass", Sub, True), ("the class itself", Base, False), ("an unrelated class", Other, False), ("a non-class", 5, False)):
+                r = run(arg, Base)
+                if bool(r) != want:
+                    bad = bad or f"for {what} StrictSubclass[Base] answers {r!r} (expected {want})"
+        else:
+            for what, arg, name, want in (("a class with the method", Base, "method", True), ("a subclass of it", Sub, "method", True), ("a class without it", Other, "method", False)):
+                r = run(arg, name)
+                if bool(r) != want:
+                    bad = bad or f"for {what} HasMethod['method'] answers {r!r} (expected {want})"
+        out[f.name] = (f, bad is None, bad or "")
+    return out
+
+
 def r6_documented_predicates(ctx):
+    from ..model import AnalysisError
+    from .common import run_fallback
+
+    try:
+        preds = documented_predicates(ctx)
+        if len(preds) < 3:
+            raise AnalysisError("expected Exactly, StrictSubclass and HasMethod")
+    except AnalysisError as e:
+        run_fallback(ctx, _r6_documented_predicates_shape, e, "documented class predicates")
+        return
+    texts = {"Exactly": ("exactly-the-class", "Exactly[T] is a supertype of a class only when it is T itself (and is then ranked LESS than T, otherwise like T)"), "StrictSubclass": ("proper-subclass", "StrictSubclass[T] matches subclasses of T but not T itself"), "HasMethod": ("has-the-method", "HasMethod[name] matches classes that have an attribute of that name")}
+    for name, (f, ok, detail) in preds.items():
+        ctx.touch(f)
+        ctx.ob(f"{f.key}:{texts[name][0]}", f.loc(), texts[name][1] + " (interpreted on stand-in classes)", ok, detail + ": the documented meaning of the type no longer holds")
+    _deferred_rule(ctx)
+
+
+def _deferred_rule(ctx):
+    repo = ctx.repo
+    defs = [c for c in repo.all_classes() if c.name == "Deferred" and "__class_getitem__" in c.methods]
+    for c in defs:
+        m = c.methods["__class_getitem__"]
+        ctx.touch(m)
+        if not _deferred_by_interpretation(ctx, m):
+            _deferred_shape(ctx, m)
+
+
+def _r6_documented_predicates_shape(ctx):
     repo = ctx.repo
     mod = repo.mod("types")
     found = 0
